@@ -19,13 +19,18 @@ ID = "C16"
 LEVEL = "proof"
 HFLAGS = ["-O1", "-pthread", "-fsanitize=float-cast-overflow", "-fsanitize-undefined-trap-on-error",
           "-DTETL_ENABLE_CONTRACT_CHECKS=1"]
-HARNESSES = [{"name": "main", "src": "harness.cpp", "flags": HFLAGS}]
+# second build with clang (thorough tier): etl::signbit takes the library-written fallback there and several
+# __has_builtin branches differ (TETL_COMPILER_CLANG)
+HARNESSES = [{"name": "main", "src": "harness.cpp", "flags": HFLAGS},
+             {"name": "clang", "src": "harness.cpp", "flags": HFLAGS, "compiler": "clang++-14", "thorough_only": True}]
 
 RULE = ("cases = known-finding witnesses + boundary table (all exponents x {0,1,2,half,half+-1,all-ones} "
         "significands, +-0, subnormals, +-inf, NaN, k, k+-0.5 and neighbours for |k|<=40, 2^j and neighbours "
         "around every case split: epsilon, 1/epsilon, 2^31, 2^63, 2^64, max) x seeded random patterns for every "
         "unary op; binary ops on a boundary grid x random plus related pairs (equal, negated, neighbours, "
         "multiples); sweep ops count etl-vs-libm mismatches over 2^24 (quick) / 2^32 (thorough) patterns; "
+        "review round: raw-pattern cases of fabs / abs / copysign / signbit incl. NaNs of both signs, rint / lrint / llrint in the "
+        "four rounding directions, suffixed (f / l) and integral overloads on small tables; "
         "non-trivial = distinct case whose impl leg is ok and (for value ops) not a NaN result")
 
 TRUSTED_BASE = ["reference leg: glibc 2.36 libm (floor..nextafter, fmod, remainder, lrint) and libstdc++ 12 "
@@ -33,7 +38,12 @@ TRUSTED_BASE = ["reference leg: glibc 2.36 libm (floor..nextafter, fmod, remaind
                 "Flocq 4.1.0 (IEEE754.BinarySingleNaN, Bits) as the definition of IEEE-754 arithmetic",
                 "undefined float->integer conversions are observed through -fsanitize=float-cast-overflow traps"]
 ASSUMPTIONS = ["x86-64 SSE2 arithmetic (FLT_EVAL_METHOD 0), default rounding mode (to nearest even)",
-               "LP64: long and long long are 64 bits", "all NaNs are identified (payload and sign of a NaN are not observed)"]
+               "LP64: long and long long are 64 bits",
+               "all NaNs are identified (payload and sign of a NaN are not observed) except in the raw* ops and the fabs / abs / "
+               "copysign sweeps, which compare raw bit patterns",
+               "rm_* ops: fesetround + glibc rint / lrint / llrint (called through function pointers) define the reference under "
+               "FE_DOWNWARD / FE_UPWARD / FE_TOWARDZERO; rint: non-negative binary32 / binary64 arguments, sign of a zero result dropped "
+               "(GCC's inline expansion of __builtin_rint without -frounding-math)"]
 
 UNARY_F = ["floor", "ceil", "trunc", "round", "rint", "fabs", "abs",
            "g_floor", "g_ceil", "g_trunc", "g_round", "g_abs", "rint_fb"]
@@ -469,7 +479,26 @@ def gen_review(tier, rng):
         for x in bv80:
             for y in bv80:
                 out.append(f"{fn}80 {t80(x)} {t80(y)}")
-    iv = [0, 1, -1, 2, -7, 1 << 31, -(1 << 31), (1 << 53) + 1, -(1 << 53) - 1, (1 << 62) + 1, (1 << 63) - 1, -(1 << 63),
+    # lerp and the hypot ladders for long double; hypotf / hypotl
+    lv = [x87_of_fraction(q) for q in (0, 1, -1, 20, -10, Fraction(1, 2 ** 20), 3, Fraction(2) ** 16000, -Fraction(2) ** 16000)] + [(1, 0, 0), (0, 1, 0), (0, (1 << 64) - 1, 32766), (1, (1 << 64) - 1, 32766)]
+    lv += [(rng.getrandbits(1), (1 << 63) | rng.getrandbits(63), rng.randrange(1, 32767)) for _ in range(3)]
+    tv80 = [x87_of_fraction(q) for q in (0, 1, Fraction(1, 2), Fraction(3, 2), -1, Fraction(1, 4), 2)] + [(1, 0, 0), (0, (1 << 63) + 1, X87_BIAS), (0, (1 << 64) - 1, X87_BIAS - 1)]
+    for a in lv:
+        for b in lv:
+            for tt in tv80:
+                out.append(f"lerp80 {t80(a)} {t80(b)} {t80(tt)}")
+    sp80 = [(0, 0, 0), (1, 0, 0), X87_INF, (1,) + X87_INF[1:], X87_NAN, x87_of_fraction(1), x87_of_fraction(-4), (0, (1 << 64) - 1, 32766), (0, 1, 0)]
+    for x in sp80:
+        for y in sp80:
+            out.append(f"hypot80 {t80(x)} {t80(y)}")
+            out.append(f"hypotl80 {t80(x)} {t80(y)}")
+            for z in sp80:
+                out.append(f"hypot380 {t80(x)} {t80(y)} {t80(z)}")
+    spf = [0, f.S, f.inf, f.inf | f.S, f.qnan, f.bias << f.mw, f.nearest(-4.0), f.inf - 1, 1]
+    for x in spf:
+        for y in spf:
+            out.append(f"hypotf32 {x} {y}")
+    iv = [0, 1, -1, 2, -7, (1 << 24) + 1, (1 << 31) + 1, 1 << 31, -(1 << 31), (1 << 53) + 1, -(1 << 53) - 1, (1 << 62) + 1, (1 << 63) - 1, -(1 << 63),
           (1 << 63) - 513, (1 << 63) - 512] + [rng.getrandbits(63) - (1 << 62) for _ in range(6)]
     ivu = [0, 1, 7, (1 << 53) + 1, (1 << 63) - 1, 1 << 63, (1 << 64) - 1, (1 << 64) - 1025, (1 << 64) - 1024] + [rng.getrandbits(64) for _ in range(6)]
     for fn in ("floor", "ceil", "trunc", "round", "rint", "lrint", "llrint", "isnan", "isinf"):
